@@ -103,6 +103,27 @@ class LibHooks(Hooks):
         if r.name == 'STATE' and size is not None:
             d = st.tags.get(('dirty', 'STATE'), frozenset())
             st.tags[('dirty', 'STATE')] = d | {(off.key(), size)}
+            if size <= 2:
+                # remember, per enclosing loop, the first value a small (flag-like) cell had since that loop's head
+                k = (off.key(), size)
+                old = None
+                for tk in [t for t in st.tags if isinstance(t, tuple) and t and t[0] == 'loophead']:
+                    fk = ('fw', tk[1], tk[2])
+                    fw = st.tags.get(fk, ())
+                    if not any(x[0] == k for x in fw):
+                        if old is None:
+                            c = (st.cells('STATE') or {}).get(k)
+                            old = 0
+                            if c is not None and isinstance(c[2], Int):
+                                cc = st.store.const_of(c[2].a)
+                                if cc is not None:
+                                    old = cc
+                                else:
+                                    sg = c[2].a.single()
+                                    if sg and sg[1] == 1 and c[2].a.c == 0:
+                                        old = st.kb.get(sg[0], (0, 0))[1]
+                        # (cell, bits known to be set in the value the cell had at the loop head)
+                        st.tags[fk] = fw + ((k, old),)
 
     def on_memset(self, st, r, off, length, byte, ins):
         if r.name == 'STATE':
